@@ -1,9 +1,11 @@
 """C09 Union branch choice — structural obligations."""
 import ast
+import re
 import copy
 
 from sa.loader import AnalysisError, norm, walk_local
 from sa.cfg import cfg_of
+from sa.pathsum import summaries
 from .common import analysis, W_NAMES, tokens, names_in
 from .c02 import union_selection
 
@@ -55,6 +57,53 @@ def label_slice(f, loopvar_hint=None):
     return None
 
 
+def label_cases(f):
+    """The branch-label function of a tuple-notation arm, from path summaries: {(conditions on the candidate, label
+    expression)} in terms of CAND (the loop variable over the union's branches) and HINT (the first element
+    unpacked from the (name, value) tuple), plus the guard facts that enable tuple notation and the summaries."""
+    import re as _re
+
+    hints = set()
+    for n in walk_local(f.node):
+        if isinstance(n, ast.Assign) and isinstance(n.targets[0], ast.Tuple) and len(n.targets[0].elts) == 2 and isinstance(n.targets[0].elts[0], ast.Name) and isinstance(n.value, ast.Name):
+            hints.add(n.targets[0].elts[0].id)
+    cands = set()
+    for n in walk_local(f.node):
+        if isinstance(n, ast.For):
+            tgt = n.target
+            cands.add(tgt.elts[-1].id if isinstance(tgt, ast.Tuple) and isinstance(tgt.elts[-1], ast.Name) else (tgt.id if isinstance(tgt, ast.Name) else "?"))
+    if not hints or not cands:
+        return None
+    sums = summaries(cfg_of(f), max_paths=20000)
+
+    def role(t):
+        for c in cands:
+            t = _re.sub(rf"\b{_re.escape(c)}\b", "CAND", t)
+        for h in hints:
+            t = _re.sub(rf"\b{_re.escape(h)}\b", "HINT", t)
+        return t
+
+    cases = set()
+    guards_ = set()
+    matched, unmatched = [], []
+    for s in sums:
+        tup = [x for x in s.facts if "isinstance(" in x and "tuple)" in x and not x.startswith("not ")]
+        if not tup:
+            continue
+        facts = {role(x) for x in s.facts}
+        eqs = [x for x in facts if _re.fullmatch(r"HINT == .+|.+ == HINT", x)]
+        if eqs:
+            matched.append(s)
+            for e in eqs:
+                label = e[len("HINT == "):] if e.startswith("HINT == ") else e[: -len(" == HINT")]
+                conds = frozenset(x for x in facts if "CAND" in x and "HINT" not in x and x != e and not x.startswith("_validate(") and not x.startswith("not _validate("))
+                cases.add((conds, label))
+        else:
+            unmatched.append(s)
+        guards_ |= {x for x in s.facts if ("tuple" in x or "disable_tuple_notation" in x)}
+    return {"cases": cases, "guards": guards_, "matched": matched, "unmatched": unmatched, "role": role, "cands": cands, "hints": hints}
+
+
 def _alpha(stmt, fixed):
     """unparse with local names renamed in order of first binding (fixed names mapped as given)"""
     s = copy.deepcopy(stmt)
@@ -86,18 +135,24 @@ def run(ctx):
 
     # ---- R1 label-function agreement ---------------------------------------------------------
     ctx.rule("C09.R1", "the branch-label function of write_union's tuple arm and of _validate_union's tuple arm are the same computation under the same guard; the reader reports names in that vocabulary", floor=4)
-    lw, lv = label_slice(wu), label_slice(vu)
-    if lw is None or lv is None:
-        ctx.unrecognised("C09.R1", "label slices", (wu if lw is None else vu).where(), "tuple arm with a label computation and `hint == label` comparison not found")
+    lw, lv = label_cases(wu), label_cases(vu)
+    if lw is None or lv is None or not lw["cases"] or not lv["cases"]:
+        ctx.unrecognised("C09.R1", "label functions", (wu if (lw is None or not lw["cases"]) else vu).where(), "tuple arm with a `hint == label` comparison not found")
     else:
-        ctx.check("C09.R1", "writer and validator name union branches by the same function", lw["text"] == lv["text"], vu.where(lv["loop"]), f"_validate_union label: {lv['text']!r} vs write_union label: {lw['text']!r}", "validate() and the writers disagree on which branch a (name, value) hint selects: data the writer encodes is rejected by validate (or vice versa)")
-        gw = lw["guard"].replace(wu.pos_params[1], "DATUM").replace(wu.pos_params[5], "OPTIONS")
-        gv = lv["guard"].replace(vu.pos_params[0], "DATUM").replace("options", "OPTIONS")
-        ctx.check("C09.R1", "tuple notation is enabled by the same guard on both sides", gw == gv, vu.where(lv["if"]), f"validator guard `{gv}` vs writer guard `{gw}`", "tuple notation is recognised under different conditions by the writer and by validate")
-        # after the hint matched, the *selected candidate* is what gets validated / written
-        sel = [c for c in ast.walk(lv["cmp"]) if isinstance(c, ast.Call) and isinstance(c.func, ast.Name) and c.func.id == "_validate"]
-        ok = len(sel) == 1 and any(k.arg == "schema" and norm(k.value) == lv["cand"] for k in sel[0].keywords) or (len(sel) == 1 and len(sel[0].args) > 1 and norm(sel[0].args[1]) == lv["cand"])
-        ctx.check("C09.R1", "validator: a hinted value is validated against exactly the named branch", ok and any(isinstance(s, ast.Return) for s in lv["cmp"].body), vu.where(lv["cmp"]), f"_validate_union: hinted branch handling `{norm(lv['cmp'])[:100]}`", "a hinted value must be validated against the named branch only and that verdict returned")
+        show = lambda cs: sorted((sorted(c), l) for c, l in cs)
+        ctx.check("C09.R1", "writer and validator name union branches by the same function", lw["cases"] == lv["cases"], vu.where(), f"_validate_union label cases: {show(lv['cases'])} vs write_union: {show(lw['cases'])}", "validate() and the writers disagree on which branch a (name, value) hint selects: data the writer encodes is rejected by validate (or vice versa)")
+        rg = lambda g, f_, dpos: {x.replace(f_.pos_params[dpos], "DATUM") for x in g}
+        gw = {re.sub(r"\b" + wu.pos_params[5] + r"\b", "OPTIONS", x) for x in rg(lw["guards"], wu, 1)}
+        gv = {re.sub(r"\boptions\b", "OPTIONS", x) for x in rg(lv["guards"], vu, 0)}
+        ctx.check("C09.R1", "tuple notation is enabled by the same guard on both sides", gw == gv, vu.where(), f"validator guard `{sorted(gv)}` vs writer guard `{sorted(gw)}`", "tuple notation is recognised under different conditions by the writer and by validate")
+        # after the hint matched, the *selected candidate* is what gets validated and that verdict is the result
+        rets = [s for s in lv["matched"] if s.kind == "return"]
+        okv = bool(rets)
+        for s in rets:
+            t = lv["role"](s.text)
+            okv = okv and t.startswith("_validate(") and ("schema=CAND" in t or re.match(r"_validate\([^,]+, CAND\b", t) is not None)
+        falls = [s for s in lv["matched"] if s.kind != "return" and not (s.kind == "raise")]
+        ctx.check("C09.R1", "validator: a hinted value is validated against exactly the named branch", okv and not falls, vu.where(rets[0].node) if rets else vu.where(), f"_validate_union: with a matching hint returns {[lv['role'](s.text)[:70] for s in rets]}", "a hinted value must be validated against the named branch only and that verdict returned")
     # reader side: names reported
     names_reported = []
     for n in walk_local(ru.node):
@@ -113,10 +168,11 @@ def run(ctx):
     # ---- R2 unknown hint is an error ------------------------------------------------------------
     ctx.rule("C09.R2", "unknown hint: writer raises (sentinel cannot reach write_index), validator's for-else returns False", floor=2)
     union_selection(ctx, a, wu, "C09.R2")
-    if lv is not None:
-        orelse = lv["loop"].orelse
-        ok = len(orelse) == 1 and isinstance(orelse[0], ast.Return) and isinstance(orelse[0].value, ast.Constant) and orelse[0].value.value is False
-        ctx.check("C09.R2", "validator: no branch with the hinted name -> False", ok, vu.where(lv["loop"]), f"_validate_union: for-else {[norm(s) for s in orelse]}", "a hint naming no branch must make validation fail; falling through validates the bare value against every branch")
+    if lv is not None and lv["cases"]:
+        um = [s for s in lv["unmatched"]]
+        ok = bool(um) and all((s.kind == "return" and s.text == "False") or s.kind == "raise" for s in um)
+        bad = [s for s in um if not ((s.kind == "return" and s.text == "False") or s.kind == "raise")]
+        ctx.check("C09.R2", "validator: no branch with the hinted name -> False", ok, vu.where(bad[0].node) if bad and bad[0].node is not None else vu.where(), f"_validate_union: without a matching branch the tuple arm yields {[s.kind + ' ' + s.text[:50] for s in bad]}", "a hint naming no branch must make validation fail; falling through validates the bare value against every branch")
 
     # ---- R3 order and ties -------------------------------------------------------------------------
     ctx.rule("C09.R3", "candidates visited by enumerate(schema) ascending; non-record match breaks; record arm updates on a strict comparison", floor=3)
